@@ -151,7 +151,8 @@ class TimeSrc(fm.TimeComponent):
 
 
 class Sink(fm.TimeComponent):
-    """kind: pull (Input, initial pull) | push (CallbackInput) | static (static Input)"""
+    """kind: pull (Input, initial pull) | push (CallbackInput) | static (static Input) | static_push (static
+    CallbackInput)"""
 
     def __init__(self, kind, n_inputs=1):
         super().__init__()
@@ -168,10 +169,13 @@ class Sink(fm.TimeComponent):
             if self.kind == "push":
                 self.inputs.add(CallbackInput(callback=lambda c, t: None, name=name, time=self.time,
                                               grid=None, units=None))
+            elif self.kind == "static_push":
+                self.inputs.add(CallbackInput(callback=lambda c, t: None, name=name, static=True, time=None,
+                                              grid=None, units=None))
             else:
                 self.inputs.add(name=name, time=None if self.kind == "static" else self.time, grid=None, units=None,
                                 static=self.kind == "static")
-        self.create_connector(pull_data=[] if self.kind == "push" else list(self.inputs))
+        self.create_connector(pull_data=[] if self.kind in ("push", "static_push") else list(self.inputs))
 
     def _connect(self, start_time):
         self.try_connect(start_time)
@@ -209,7 +213,7 @@ def h_validate(ctx):
         missing, dangling, order = "none", False, 0
     else:
         src_kind = ["time", "pull", "static"][ctx.choice("src_kind", 3)]
-        sink_kind = ["pull", "push", "static"][ctx.choice("sink_kind", 3)]
+        sink_kind = ["pull", "push", "static", "static_push"][ctx.choice("sink_kind", 4)]
         n = ctx.choice("chain_len", (1 if src_kind == "static" else maxlen) + 1)
         kinds = [ADAS[ctx.choice(f"ada{k}", 1 if src_kind == "static" else len(ADAS))] for k in range(n)]
         fan = ctx.choice("fanout_at", n + 2)  # n+1 = no fan-out; p <= n: element p (0 = the output) gets a 2nd target
@@ -243,7 +247,7 @@ def h_validate(ctx):
     reasons = []
     if dangling:
         reasons.append("unconnected-input")
-    if sink_kind == "static" and src_kind != "static":
+    if sink_kind in ("static", "static_push") and src_kind != "static":
         reasons.append("static-input-nonstatic-output")
     if missing != "none":
         reasons.append("missing-component")
@@ -335,7 +339,7 @@ EXPLANATION = (
     "is a z3 formula over the same booleans and z3 must refute raised ≠ rule on every path -- a genuine for-all claim over "
     "flag assignments, transferred to the real classes by (c) reading their flags. (b) Real topologies through the real "
     "Composition.connect (_validate_composition, _check_input_connected, _check_dead_links, _check_branching, "
-    "_check_missing_components): source kind (time / pull-based / static) x sink kind (pull / push-notified / static) x "
+    "_check_missing_components): source kind (time / pull-based / static) x sink kind (pull / push-notified / static / static push-notified) x "
     "chains of 0-3 adapters from {Scale, LinearTime, DelayFixed, DelayToPull, DelayToPush} x fan-out position x missing "
     "component x dangling input, chosen by fork variables: FinamConnectError iff the declarative rule of the statement "
     "says unworkable, no push/pull before the rejection, and on success metadata['links'] equals the created links. (b) is "
